@@ -61,21 +61,20 @@ Definition parse_body (parse_rec : M tyres) : M tyres :=
     | Some LBracket =>
         node LIST_TYPE (
           bump L_BRACK ;;
-          reached <- rec_check_and_increment ;;
-          if reached then limit_err ;; ret (Some TyOk)          (* return Ok(()) *)
-          else
-            result <- parse_rec ;;
-            rec_decrement ;;
-            match result with TyErr (Some token) => err_at_token token | _ => ret tt end ;;
-            expect RBracket R_BRACK ;;
-            ret None)
+          rec_guard
+            (limit_err ;; ret (Some TyOk))                        (* return Ok(()) *)
+            parse_rec
+            (fun result =>
+               match result with TyErr (Some token) => err_at_token token | _ => ret tt end ;;
+               expect RBracket R_BRACK ;;
+               ret None))
     | Some Name =>
         node NAMED_TYPE (node NAME (
           token <- pop ;;
           validate_name (td token) ;;
           push_token IDENT token)) ;;
         ret None
-    | Some _ => t <- pop ;; ret (Some (TyErr (Some t)))       (* return Err(Some(p.pop())) *)
+    | Some _ => t <- pop ;; ghost_dropped t ;; ret (Some (TyErr (Some t)))   (* return Err(Some(p.pop())) *)
     | None => ret (Some (TyErr None))                          (* return Err(None) *)
     end ;;
   match early with
@@ -131,9 +130,7 @@ Definition list_value_ (value : constness -> bool -> M unit) (fuel : nat) (c : c
       if tkind_eqb node_ RBracket then bump R_BRACK ;; ret false
       else if tkind_eqb node_ Eof then ret false
       else
-        reached <- rec_check_and_increment ;;
-        if reached then limit_err ;; ret false
-        else value c true ;; rec_decrement ;; ret true)).
+        rec_guard (limit_err ;; ret false) (value c true) (fun _ => ret true))).
 
 Definition object_field_ (value : constness -> bool -> M unit) (c : constness) : M unit :=
   node OBJECT_FIELD (
@@ -141,9 +138,7 @@ Definition object_field_ (value : constness -> bool -> M unit) (c : constness) :
     b <- peek_is Colon ;;
     when b (
       bump COLON ;;
-      reached <- rec_check_and_increment ;;
-      if reached then limit_err          (* return *)
-      else value c true ;; rec_decrement)).
+      rec_guard limit_err (* return *) (value c true) (fun _ => ret tt))).
 
 Definition object_value_ (value : constness -> bool -> M unit) (fuel : nat) (c : constness) : M unit :=
   node OBJECT_VALUE (
@@ -399,12 +394,9 @@ Definition selection_set_body (selection_set : M unit) (fuel : nat) : M unit :=
   when b (
     node SELECTION_SET (
       bump L_CURLY ;;
-      reached <- rec_check_and_increment ;;
-      if reached then limit_err        (* return *)
-      else
-        selection_ selection_set fuel ;;
-        rec_decrement ;;
-        expect RCurly R_CURLY)).
+      rec_guard limit_err (* return *)
+        (selection_ selection_set fuel)
+        (fun _ => expect RCurly R_CURLY))).
 
 Fixpoint selection_set (fuel : nat) : M unit :=
   match fuel with
@@ -417,13 +409,14 @@ Definition field (fuel : nat) : M unit := field_ (selection_set fuel) fuel.
 Definition inline_fragment (fuel : nat) : M unit := inline_fragment_ (selection_set fuel) fuel.
 
 Definition field_set (fuel : nat) : M unit :=
-  b <- peek_is LCurly ;;
-  if b then selection_set fuel
-  else
-    node SELECTION_SET (
-      reached <- rec_check_and_increment ;;
-      if reached then limit_err        (* return *)
-      else selection fuel ;; rec_decrement).
+  node SELECTION_SET (
+    braces <- peek_is LCurly ;;
+    when braces (bump L_CURLY) ;;
+    rec_guard limit_err (* return *)
+      (selection fuel)
+      (fun _ =>
+         when braces (expect RCurly R_CURLY) ;;
+         trailing_tokens_are_errors fuel)).
 
 (* ------------------------------------------------------------------ fragment.rs (definition) *)
 Definition fragment_definition (fuel : nat) : M unit :=
@@ -575,12 +568,14 @@ Definition schema_definition (fuel : nat) : M unit :=
     if_peek StringValue description ;;
     b <- peek_data_is s_schema ;; when b (bump schema_KW) ;;
     if_peek At (directives fuel Const) ;;
-    if_peek LCurly (
+    b <- peek_is LCurly ;;
+    if b then
       bump L_CURLY ;;
       has_root_operation_types <-
         peek_while_kind_acc fuel Name (fun _ => root_operation_type_definition ;; ret true) false ;;
       when (negb has_root_operation_types) err ;;
-      expect RCurly R_CURLY)).
+      expect RCurly R_CURLY
+    else err).
 
 Definition schema_extension (fuel : nat) : M unit :=
   node SCHEMA_EXTENSION (
